@@ -13,7 +13,7 @@ EXPLANATION = (
     "connection lost -> connection-level, the rest -> Unknown/Undefined); (e) BidiStream's trait impls are pure "
     "forwarders to its halves. Byte delivery over real Quinn under flow control is not decided."
     " C17-d also restricts who may construct StreamErrorIncoming / ConnectionErrorIncoming / SendDatagramErrorIncoming in the adapter to the conversion tables and a short audited list, so that no Quinn error reaches h3 unclassified.")
-RULES = "C17-b also: poll_send writes only while no framed write is pending; C17-a overlapping write refused (A2); C17-b advance by what Quinn accepted, buffer kept across Pending (A4/A8); C17-c identifiers never panic (A9/A14); C17-d error tables, who may build a transport error, success never answered after a Quinn error (A3/A10); C17-e forwarders (A13); shared through a proxy: C14-e under C17-b; C17-c also: receive stream put back on every exit after the read completed"
+RULES = "C17-b also: poll_send writes only while no framed write is pending; C17-c also: a pending stop is taken after the read has answered; C17-d also: h3 -> datagram error table; C17-a overlapping write refused (A2); C17-b advance by what Quinn accepted, buffer kept across Pending (A4/A8); C17-c identifiers never panic (A9/A14); C17-d error tables, who may build a transport error, success never answered after a Quinn error (A3/A10); C17-e forwarders (A13); shared through a proxy: C14-e under C17-b; C17-c also: receive stream put back on every exit after the read completed"
 
 Q = "h3_quinn::"
 SS = "<h3_quinn::SendStream as h3::quic::SendStream<B>>::"
@@ -145,6 +145,21 @@ def run(ctx):
                       "poll_data returns %s after the read future answered without storing the stream back into self.stream: the stream is lost, "
                       "and the next poll_data polls the finished future (panic) instead of reporting the error" % p.ret_shape()[:40], "", None, p.describe())
         ctx.floor("C17-c", "exits of RecvStream::poll_data after the read completed", n_back, 2)
+    # a stop the application asked for while a read was in flight is carried out as soon as that read has answered and the stream is
+    # back (before it is stored again) - not put off until some later read is started, which may never happen
+    if pdr:
+        nst = 0
+        for p in [p for p in ru.all_paths(ctx, "C17-c", pdr, max_visits=1) if p.end == "return" and p.ret_shape() != "Pending"]:
+            ev = [(i, e) for i, e in enumerate(p.events) if e[0] == "call"]
+            pol = [i for i, e in ev if e[2].cname == "poll"]
+            tk = [i for i, e in ev if e[2].cname == "take" and e[3] and pa.vfmt(e[3][0]).endswith("pending_stop")]
+            if not pol:
+                continue
+            nst += 1
+            ctx.check(bool(tk) and min(tk) > max(pol), "C17-c", pdr.key, "a pending stop is taken after the read has answered",
+                      "poll_data %s: the STOP_SENDING code requested during a suspended read reaches the peer only if another read is started"
+                      % ("looks at pending_stop before polling the read" if tk else "does not look at pending_stop once the read has answered"), "", None, p.describe())
+        ctx.floor("C17-c", "completed-read exits of poll_data examined for the pending stop", nst, 2)
     # ------------------------------------------------------------------ C17-c nullability
     # fields of Option type in h3_quinn structs that some method leaves empty on an exit
     emptied = {}
@@ -244,6 +259,11 @@ def run(ctx):
         "UnsupportedByPeer": ("SendDatagramErrorIncoming::NotAvailable", None, "NotAvailable"), "Disabled": ("SendDatagramErrorIncoming::NotAvailable", None, "NotAvailable"),
         "TooLarge": ("SendDatagramErrorIncoming::TooLarge", None, "TooLarge"),
         "ConnectionLost": ("SendDatagramErrorIncoming::ConnectionError", lambda p: p.has_call(Q + "convert_connection_error"), "ConnectionError (converted)")})
+    table(Q + "datagram::convert_h3_error_to_datagram_error", {
+        "ApplicationClose": ("ConnectionErrorIncoming::ApplicationClose", lambda p: "error_code" in pa.vfmt(p.ret), "ApplicationClose{same code}"),
+        "Timeout": ("ConnectionErrorIncoming::Timeout", None, "Timeout"),
+        "InternalError": ("ConnectionErrorIncoming::InternalError", None, "InternalError"),
+        "Undefined": ("ConnectionErrorIncoming::Undefined", None, "Undefined")})
     errors_not_swallowed(ctx, "C17-d")
     # who may build an h3 transport error in the adapter: only the conversion tables above and the audited sites below, so that
     # no Quinn error reaches h3 without passing through its table (e.g. wrapped wholesale as Unknown)
